@@ -161,8 +161,17 @@ pub struct DiskStats {
 
 pub const OP_BUDGET: u64 = 100_000_000;
 
+/// A read-only stream of `len` bytes that is zero everywhere except for `segs` (sorted by
+/// offset, non-overlapping): archives of many GiB without the memory.
+#[derive(Clone, Debug, Default)]
+pub struct Sparse {
+    pub segs: Vec<(u64, Vec<u8>)>,
+    pub len: u64,
+}
+
 struct Inner {
     image: Vec<u8>,
+    sparse: Option<Sparse>,
     pos: u64,
     policy: Policy,
     rng: Rng,
@@ -214,10 +223,17 @@ impl SimDisk {
             closed: false,
             budget_exceeded: false,
             stalled: false,
+            sparse: None,
             epoch_seen: 0,
             ops_in_call: 0,
             budget: OP_BUDGET,
         })))
+    }
+    /// A sparse, read-only stream (see `Sparse`).
+    pub fn sparse(sp: Sparse, policy: &Policy) -> Self {
+        let d = SimDisk::new(Vec::new(), policy);
+        d.lock().sparse = Some(sp);
+        d
     }
     pub fn plain(image: Vec<u8>) -> Self {
         Self::new(image, &Policy::plain())
@@ -351,6 +367,10 @@ impl Inner {
         g.clamp(1, req)
     }
 
+    fn total_len(&self) -> u64 {
+        self.sparse.as_ref().map_or(self.image.len() as u64, |s| s.len)
+    }
+
     /// Decides whether the operation that is about to complete fails. Consumes one op index.
     fn begin(&mut self, kind: OpKind) -> Result<(), io::Error> {
         let idx = self.stats.ops;
@@ -427,7 +447,7 @@ impl Inner {
             return Err(e);
         }
         self.stats.reads += 1;
-        let avail = (self.image.len() as u64).saturating_sub(pos) as usize;
+        let avail = self.total_len().saturating_sub(pos).min(buf.len() as u64) as usize;
         let want = buf.len().min(avail);
         let n = self.grant(false, want);
         if n < want {
@@ -437,8 +457,19 @@ impl Inner {
             self.stats.eof_reads += 1;
         }
         if n > 0 {
-            let p = pos as usize;
-            buf[..n].copy_from_slice(&self.image[p..p + n]);
+            if let Some(sp) = &self.sparse {
+                buf[..n].fill(0);
+                let end = pos + n as u64;
+                for (o, d) in &sp.segs {
+                    let (a, b) = ((*o).max(pos), (*o + d.len() as u64).min(end));
+                    if a < b {
+                        buf[(a - pos) as usize..(b - pos) as usize].copy_from_slice(&d[(a - o) as usize..(b - o) as usize]);
+                    }
+                }
+            } else {
+                let p = pos as usize;
+                buf[..n].copy_from_slice(&self.image[p..p + n]);
+            }
         }
         self.pos += n as u64;
         self.stats.bytes_read += n as u64;
@@ -459,6 +490,7 @@ impl Inner {
         if self.closed {
             self.stats.writes_after_close += 1;
         }
+        assert!(self.sparse.is_none(), "harness: sparse simulated streams are read-only");
         let n = self.grant(true, buf.len());
         if n < buf.len() {
             self.stats.short_writes += 1;
@@ -495,7 +527,7 @@ impl Inner {
         let new = match to {
             SeekFrom::Start(n) => Some(n),
             SeekFrom::Current(d) => pos.checked_add_signed(d),
-            SeekFrom::End(d) => (self.image.len() as u64).checked_add_signed(d),
+            SeekFrom::End(d) => self.total_len().checked_add_signed(d),
         };
         match new {
             Some(n) => {
